@@ -81,14 +81,14 @@ end Dict
 
 /-! ### the leaves below a node (specification side, used by models and specs alike) -/
 
-/-- `leafTable n D` lists, for every node `0 … n-1+|D|`, the leaves below it:
+/-- `leafTable D tbl` extends the table `tbl` row by row; `leafTable0 n D` lists, for every node `0 … n-1+|D|`, the leaves below it:
     `[x]` for a leaf, `leaves i ++ leaves j` for the node created by row `[i, j, …]`. -/
-def leafTable (n : Nat) : List (Row α) → List (List Nat) → List (List Nat)
+def leafTable : List (Row α) → List (List Nat) → List (List Nat)
   | [], tbl => tbl
-  | r :: rs, tbl => leafTable n rs (tbl ++ [tbl.getD r.i [] ++ tbl.getD r.j []])
+  | r :: rs, tbl => leafTable rs (tbl ++ [tbl.getD r.i [] ++ tbl.getD r.j []])
 
 def leafTable0 (n : Nat) (D : Dendro α) : List (List Nat) :=
-  leafTable n D (tab n fun x => [x])
+  leafTable D (tab n fun x => [x])
 
 /-- leaves below node `x` of the dendrogram `D` over `n` leaves -/
 def leaves (n : Nat) (D : Dendro α) (x : Nat) : List Nat := (leafTable0 n D).getD x []
